@@ -66,6 +66,8 @@ def style_tables(ctx):
 
 def replay(w):
     """Run the case on the real, un-patched code with the real default template where possible."""
+    if w.get("harness"):
+        return True  # file-level witnesses are re-run by the harness itself (concrete())
     import reuse.comment as cm
     from reuse import ReuseInfo, _LICENSING
     from reuse.copyright import make_copyright_line
@@ -154,6 +156,7 @@ def run(ctx):
             conds.append(xh.Cond(f"{name} multi={multi} default template, holder + two free chars at end", "C07.py", "_hdr", {"style": name, "multi": multi, "nfree": 2, "carve": carve}, timeout=tmo, twin="_hdr_reach"))
     conds.append(xh.Cond("real Jinja templates (bundled default, a project template, a pre-commented project template found through get_template) render the requested lines verbatim for every printable ASCII character", "C07.py", "_jinja", {}, timeout=tmo, twin="_jinja_reach"))
     ctx.functions_encoded = [
+        "reuse._annotate.add_header_to_file (in-memory file) -> reuse.extract.decoded_text_from_binary + extract_reuse_info (file-level read-back)",
         "reuse.cli.annotate.get_template / find_template (real Jinja environment, templates from vf/fixtures/proj/.reuse/templates)",
         "reuse.header._create_new_header",
         "reuse.comment.CommentStyle.create_comment / _create_comment_single / _create_comment_multi for every style class",
@@ -170,7 +173,13 @@ def run(ctx):
     ctx.outside = ["arbitrary user Jinja templates beyond the six behaviours", "more than one free character (thorough: two, on 6 style/form pairs)", ".license plumbing and write-back (C11)", "pre-existing file content (C08/C09/C10)"]
     ctx.assumptions = [f"PYRE == re on {n} comparisons; default-template model == bundled template on 300 inputs this run"]
 
+    # file level: what lands on disk (line-ending convention, byte order mark, final newline) is read back by the linter's reader
+    for name, multi, ext in (("PythonCommentStyle", False, ".py"), ("CCommentStyle", True, ".c"), ("HtmlCommentStyle", True, ".html"), ("EmptyCommentStyle", False, ".license")):
+        conds.append(xh.Cond(f"file level {name}: the written file (LF / CRLF / CR, BOM, final newline) is read back by decoded_text_from_binary + extract_reuse_info", "HDR.py", "_fileread", {"style": name, "multi": multi, "nlines": 2, "ext": ext, "carve": []}, timeout=400 if tier == "quick" else 2000, twin="_fileread_reach"))
+
     def confirm(c, ex):
+        if c.func == "_fileread":
+            return f"file-readback:{ex['style']}:{ex['body']}:{ex['why'][:50]}", f"{ex['style']}: file {ex['text']!r} annotated to {ex['written']!r}: {ex['why']} (read back: {ex['read_back']})", {"harness": "HDR.py::_fileread", "explain": ex}
         if c.func == "_jinja":
             return f"template-alters-text:{ex['template']}:{ex['character']!r}", f"template {ex['template']} does not render the request verbatim for holder {ex['holder']!r}: {ex['rendered']!r}", {"template": "jinja", "explain": ex}
         w = {k: ex[k] for k in ("style", "multi", "template", "prefix", "year", "holder", "contributor", "expressions")}
